@@ -167,6 +167,9 @@ int vorbis_synthesis_halfrate(vorbis_info *vi,int flag){
   /* set / clear half-sample-rate mode */
   codec_setup_info     *ci=vi->codec_setup;
 
+  /* an info that has been cleared (or never filled in) has no setup */
+  if(!ci)return -1;
+
   /* right now, our MDCT can't handle < 64 sample windows. */
   if(ci->blocksizes[0]<=64 && flag)return -1;
   ci->halfrate_flag=(flag?1:0);
@@ -175,5 +178,6 @@ int vorbis_synthesis_halfrate(vorbis_info *vi,int flag){
 
 int vorbis_synthesis_halfrate_p(vorbis_info *vi){
   codec_setup_info     *ci=vi->codec_setup;
+  if(!ci)return -1;
   return ci->halfrate_flag;
 }
